@@ -7,6 +7,7 @@ import (
 	"math/rand"
 	"os"
 	"runtime/debug"
+	"runtime/pprof"
 	"strings"
 	"syscall"
 	"time"
@@ -320,6 +321,12 @@ func runWorker(fam *Family, shard, nshards, startPos, onlyItem int, seed int64, 
 			f.Close()
 		}
 	}
+	if pf := os.Getenv("VERIF_CPUPROFILE"); pf != "" && shard == 0 {
+		if f, err := os.Create(pf); err == nil {
+			pprof.StartCPUProfile(f)
+			defer pprof.StopCPUProfile()
+		}
+	}
 	start := time.Now()
 	if budget > 0 {
 		w.deadline = start.Add(budget)
@@ -350,5 +357,6 @@ func runWorker(fam *Family, shard, nshards, startPos, onlyItem int, seed int64, 
 	w.flush(true)
 	w.enc.Encode(record{Type: "done"})
 	out.Close()
+	pprof.StopCPUProfile()
 	os.Exit(0)
 }
